@@ -339,7 +339,12 @@ def gen_case(rng, family):
     m = Model()
     opts = {}
     if family == 'abs':
-        x = m.var(*rand_bounds(rng, 'any'))
+        bx = rand_bounds(rng, 'any')
+        if rng.chance(4, 5):          # zero-crossing argument: otherwise abs is preprocessed away and no gadget arm is exercised
+            w = rng.rint(1, 5)
+            isint = rng.chance(1, 2)
+            bx = (-rng.rint(1, 4), w, isint)
+        x = m.var(*bx)
         y = m.var(*rand_bounds(rng, 'cont'))
         embed_numeric(rng, m, ('abs', ('v', x)), y)
     elif family in ('min', 'max'):
@@ -410,12 +415,15 @@ def gen_case(rng, family):
                                          else ('eq', ('v', x), ('n', 1)) for x in xs]), y)
     elif family == 'numberof':
         k = rng.rint(2, 4)
-        xs = [m.var(*rand_bounds(rng, 'int')) for _ in range(k)]
-        y = m.var(*rand_bounds(rng, 'cont'))
         if rng.chance(1, 2):
+            xs = [m.var(*rand_bounds(rng, 'int')) for _ in range(k)]
             ref = ('n', F(rng.rint(-2, 4)))
         else:
-            ref = ('v', m.var(*rand_bounds(rng, 'int')))
+            # variable reference value: overlapping domains, so that `a_i == ref` is undecided and gets a fresh reified comparison
+            lo = rng.rint(-3, 2)
+            xs = [m.var(lo - rng.rint(0, 1), lo + rng.rint(1, 4), True) for _ in range(k)]
+            ref = ('v', m.var(lo - 1, lo + rng.rint(2, 4), True))
+        y = m.var(*rand_bounds(rng, 'cont'))
         embed_numeric(rng, m, ('numberof', ref, [('v', x) for x in xs]), y)
     elif family == 'range':
         k = rng.rint(1, 3)
@@ -455,7 +463,7 @@ def gen_case(rng, family):
 
 
 FAMILIES = ['abs', 'min', 'max', 'and', 'or', 'not', 'ifthen', 'impl', 'cond', 'cond', 'ind', 'ind', 'count',
-            'numberof', 'range', 'lfc', 'qfc', 'div']
+            'numberof', 'range', 'lfc', 'qfc', 'div', 'abs', 'numberof']
 
 
 def cvt_options(opts):
@@ -531,6 +539,9 @@ def shift_con(s, p, m):
     return ' '.join(out)
 
 
+MODEL_ARMS = {}
+
+
 def apply_model(drv, tn, mine, vs_before, p, opts):
     """apply the Lean gadget to each stored constraint in `mine`, new variables numbered from p.
     returns (status, vars_added[list of tuples], cons[list str], ops, narrow)"""
@@ -544,6 +555,15 @@ def apply_model(drv, tn, mine, vs_before, p, opts):
         # the bounds of *all* variables of run A are visible to the step (ids >= p are never referenced by it)
         ops.append(line)
         mo = parse_model_out(drv.ask(line))
+        # which arm of the Lean gadget function answered (model-branch coverage of the correspondence stream)
+        t0 = line.split(' ')
+        gname = t0[0] + (':' + [x for x in t0 if x.startswith('kind=')][0][5:] if t0[0] == 'condlin' else '')
+        cx = [x for x in t0 if x.startswith('ctx=')]
+        shape = mo['kind'] if mo['kind'] != 'ok' else 'aux%d/rows%d%s' % (len(mo['vars']), len(mo['cons']), '/narrow' if mo['narrow'] else '')
+        if mo['kind'] == 'refusal':
+            shape = 'refusal:' + mo['what']
+        akey = '%s %s %s' % (gname, cx[0][4:] if cx else '-', shape)
+        MODEL_ARMS[akey] = MODEL_ARMS.get(akey, 0) + 1
         if mo['kind'] == 'unmodelled':
             return 'unmodelled', added, cons, ops, narrow
         if mo['kind'] == 'refusal':
@@ -962,7 +982,8 @@ def report(ck, res):
     """turn the result of run_gadgets into verdicts"""
     pid = getattr(ck, 'pid_real', ck.pid)
     st = res.get('stats', {})
-    ck.cov['gadget_correspondence'] = {k: v for k, v in st.items() if k not in ('hit', 'unmodelled')}
+    ck.cov['gadget_correspondence'] = {k: v for k, v in st.items() if k not in ('hit', 'unmodelled', 'model_arms')}
+    ck.cov['gadget_model_arms'] = st.get('model_arms', {})
     ck.cov['gadget_hits'] = st.get('hit', {})
     ck.cov['gadget_unmodelled_inputs'] = st.get('unmodelled', {})
     ck.cov['traces_validated_against_impl'] = st.get('compared', 0)
@@ -1113,6 +1134,14 @@ def validate_model(exe, stub, options, n_orig, quadobj=1):
             'conversion_rows_skipped': skipped}
 
 
+def rec_exe(ck):
+    """the recsolver executable both stages use; VERIF_COVERAGE=1 selects the gcov-instrumented build"""
+    if os.environ.get('VERIF_COVERAGE'):
+        import c01_cov
+        return c01_cov.build_cov(ck)[0]
+    return recsolver.build(ck, flags=('-O1',))
+
+
 def run_gadgets(ck, n_cases=None, proof=True):
     """proof stage + gadget correspondence; returns dict(proof_ok, failing, disagreements)"""
     t0 = time.time()
@@ -1161,7 +1190,7 @@ def run_gadgets(ck, n_cases=None, proof=True):
             if badm:
                 res['proof_ok'] = False
                 res['failing'] += ['leanchecker rejected %s' % x for x in badm]
-    exe = recsolver.build(ck, flags=('-O1',))     # same build as the end-to-end stage of checks/c01.py
+    exe = rec_exe(ck)     # same build as the end-to-end stage of checks/c01.py
     drv = Driver(ck.driver('drv_c01'))
     wd = os.path.join(BUILD, 'c01g')
     os.makedirs(wd, exist_ok=True)
@@ -1194,6 +1223,7 @@ def run_gadgets(ck, n_cases=None, proof=True):
         dis.append({'type': 'condeq', 'why': 'harness exception %r' % (ex,), 'case': 'condeq', 'ops': []})
     res['findings'] = findings
     drv.close()
+    stats['model_arms'] = dict(sorted(MODEL_ARMS.items()))
     res['disagreements'] = dis
     res['stats'] = stats
     ck.log('gadget correspondence: %d cases, %d recsolver runs, %d type-steps compared (%d constraint lines), %d refusals, %d disagreements, %.1fs'
